@@ -23,6 +23,18 @@ echo "$with" | grep -q "^FAIL\|--- FAIL" && demo_fail=true
 rm -f $(for t in "$SEED"/zz_seed_demo_*_test.go; do [ -f "$t" ] && find . -name "$(basename $t)"; done)
 # the whole existing suite with the patch applied; names of failing tests other than the three known offline/flaky ones
 pkgtests=$(go test -vet=off -count=1 ./... 2>&1 | grep -E "^--- FAIL" | sed 's/--- FAIL: \([^ ]*\).*/\1/' | grep -v "^TestBridgeCallData$\|^TestClaimCalldata$\|^TestWithReorgs$" | sort -u | tr '\n' ' ')
+# tests that failed in the loaded full run are re-run alone (twice): only those failing again are reported
+if [ -n "$pkgtests" ]; then
+  still=""
+  for tname in $pkgtests; do
+    ok=false
+    for attempt in 1 2; do
+      if go test -vet=off -count=1 -run "^${tname}\$" ./... 2>&1 | grep -q "^--- FAIL"; then :; else ok=true; break; fi
+    done
+    $ok || still="$still $tname"
+  done
+  pkgtests="$still"
+fi
 for t in "$SEED"/zz_seed_demo_*_test.go; do [ -f "$t" ] && for d in $demo_pkg; do cp "$t" "$d/"; done; done
 git apply -R "$SEED/patch.diff" 2>/dev/null
 without=$(go test -vet=off -count=1 -run 'SeedDemo|Seed' $demo_pkg 2>&1 | tail -30)
